@@ -270,6 +270,12 @@ Proof.
     apply pattern_okb_spec. eapply H; eauto.
 Qed.
 
+Lemma stacked_uniqueb_spec : forall m, stacked_uniqueb m = true <-> R_stacked_unique m.
+Proof.
+  intro m. unfold stacked_uniqueb, R_stacked_unique. apply rb_forallb. intros c _.
+  apply rb_andb; apply rb_nodupb_spec.
+Qed.
+
 (** * The reference checker decides the rules *)
 
 Theorem rulesb_spec : forall r m, rulesb r m = true <-> Rules r m.
@@ -289,7 +295,8 @@ Proof.
   apply rb_and; [apply ctorb_spec |].
   apply rb_and; [apply shapesb_spec |].
   apply rb_and; [apply invs_uniqueb_spec |].
-  apply rb_and; [apply refsb_spec | apply patternsb_spec].
+  apply rb_and; [apply refsb_spec |].
+  apply rb_and; [apply patternsb_spec | apply stacked_uniqueb_spec].
 Qed.
 
 (** Consequences used in Props/C06.v. *)
